@@ -149,6 +149,9 @@ func freeOne(r *vgen.Rand) freeResult {
 	if !callWD(func() { rg.shutdown(300, context.Background()) }) {
 		res.stuck = "final Shutdown(background) did not return"
 	}
+	if rg.rec.isRunaway() {
+		res.stuck = "runaway: the exporter was called without end"
+	}
 	// grace: let a drain that outlived an expired Shutdown finish (not needed for soundness)
 	rg.g.waitFor(func() bool { return rg.g.inside == 0 }, 200*time.Millisecond)
 	res.evs = rg.rec.take()
@@ -160,9 +163,13 @@ func freeOne(r *vgen.Rand) freeResult {
 }
 
 func runFree(w *vgen.Writer, r *vgen.Rand, n int) {
-	for i := 0; i < n; i++ {
+	for i := 0; i < n && stuckScenarios.Load() < 2; i++ {
 		res := freeOne(r.Fork())
 		if res.stuck != "" {
+			stuckScenarios.Add(1)
+			if len(res.evs) > 400 {
+				res.evs = res.evs[:400]
+			}
 			w.Violation("Stuck: "+res.stuck, map[string]any{"cfg": coqCfg(res.c), "history": descHistory(res.evs)})
 			continue
 		}
